@@ -80,12 +80,15 @@ def gen_stage(tape, name, cleanups, allow_cleanup, n, hot=1):
         if k == "leave_call":
             side.append(["leave_call", tape.choice("program", GRID + (9,), "leave-delay")])
         elif k == "log_err":
-            side.append(["log_err", tape.chance("program", 1, 2, "flushed")])
+            side.append(["log_err", tape.chance("program", 1, 2, "flushed"), tape.choice("program", ("error", "fail"), "logged-exc-kind")])
         elif k == "cleanup":
             cid = "c%d" % len(cleanups)
             cleanups[cid] = None
             cleanups[cid] = gen_stage(tape, cid, cleanups, False, n, hot)
             side.append(["cleanup", cid])
+        elif k in ("drop_failed", "drop_failed_in_cycle"):
+            # (what was logged or dropped may be a failed assertion: the test's failureException)
+            side.append([k, tape.choice("program", ("error", "fail"), "dropped-exc-kind")])
         else:
             side.append([k])
     if tape.chance("faults", 1, 10 * (4 - hot), "inner-interrupt"):
@@ -295,15 +298,15 @@ def run_one(tape, opts):
                 globalLogPublisher.addObserver(obs)
                 case.addCleanup(globalLogPublisher.removeObserver, obs)
             elif s[0] == "log_err":
-                tw_log.err(Failure(RuntimeError("logged-" + spec["marker"])))
+                tw_log.err(Failure(_exc(s[2] if len(s) > 2 else "error", "logged-" + spec["marker"])))
                 if s[1]:
                     rt.flush_logged_errors()
             elif s[0] == "drop_failed":
-                defer.fail(RuntimeError("dropped-" + spec["marker"]))
+                defer.fail(_exc(s[1] if len(s) > 1 else "error", "dropped-" + spec["marker"]))
             elif s[0] == "drop_failed_in_cycle":
                 # dropped as well, but part of a reference cycle: only the cyclic collector frees it,
                 # whenever that happens to run (here: inside the follow-up test)
-                ring = [defer.fail(RuntimeError("dropped-" + spec["marker"]))]
+                ring = [defer.fail(_exc(s[1] if len(s) > 1 else "error", "dropped-" + spec["marker"]))]
                 ring.append(ring)
             elif s[0] == "interrupt":
                 # the outside world exists only while the reactor is started (a stage can run
@@ -371,7 +374,7 @@ def run_one(tape, opts):
 
             # a stop request (Twisted's SIGINT handler queued reactor.stop, i.e. Spinner._fake_stop) that the
             # first run never got to process is still sitting in the reactor
-            carried = any(getattr(c[0], "__name__", "") == "_fake_stop" for c in reactor.threadCallQueue)
+            carried = any(getattr(c[0], "__name__", "") in ("_fake_stop", "fake_stop") for c in reactor.threadCallQueue)
 
             class FollowUp(testtools.TestCase):
                 def test_ok(self):
@@ -452,7 +455,8 @@ def run_one(tape, opts):
                         f"log observers before {obs_before} after {obs_after}")
     if sig_after[signal.SIGINT] != signal.default_int_handler:
         out.violate("signal-not-restored", "SIGINT", f"{sig_after[signal.SIGINT]!r}")
-    if kind is not None and raised is None and m.get("sigint_at_completion") and not m["stalled"]:
+    if (kind is not None and raised is None and m.get("sigint_at_completion") and not m["stalled"]
+            and any(k == "sigint" for _, k in sim.fired)):      # (delivered: the stage it sits in did run, in time)
         # "an interrupt yields an error (an interrupt also asks the result to stop)", for all interrupt instants
         if kind == "success":
             out.violate("interrupt-lost", "sigint-while-the-last-stage-finishes:reported=success",
